@@ -295,4 +295,47 @@ private theorem S4_live : LiveSchema S4 := by
 /-- … and of the determinism hypothesis `hdet` of `createAndFill_valid` / `findWrapping_sound` -/
 example : ∀ w q, (((S4.dfa w).edgesOf q).map (·.1)).Nodup := S4_live.toAut.det
 
+
+/-! ### `ContentMatch.default_type` -/
+
+/-- **default type**: the type of the first edge out of the state that is generatable (not text, no required
+    attribute); nothing iff no edge out of the state is generatable — so a returned type is allowed here
+    (`matchType` succeeds on it) and can be created without arguments -/
+theorem defaultType_spec (S : Schema) (d : Dfa) (q : Nat) :
+    (∀ t, S.defaultType d q = some t →
+      S.generatable t = true ∧ (d.matchType q t).isSome = true ∧
+      ∃ pre nxt post, d.edgesOf q = pre ++ (t, nxt) :: post ∧ ∀ e ∈ pre, S.generatable e.1 = false) ∧
+    (S.defaultType d q = none ↔ ∀ e ∈ d.edgesOf q, S.generatable e.1 = false) := by
+  unfold Schema.defaultType
+  constructor
+  · intro t h
+    cases hf : (d.edgesOf q).find? (fun e => S.generatable e.1) with
+    | none => simp [hf] at h
+    | some e =>
+      simp only [hf, Option.map_some, Option.some.injEq] at h
+      subst h
+      have hg : S.generatable e.1 = true := by simpa using List.find?_some hf
+      have hm : e ∈ d.edgesOf q := List.mem_of_find?_eq_some hf
+      refine ⟨hg, ?_, ?_⟩
+      · unfold Dfa.matchType
+        cases hf2 : (d.edgesOf q).find? (fun x => x.1 == e.1) with
+        | none =>
+          have := List.find?_eq_none.mp hf2 e hm
+          simp at this
+        | some _ => simp
+      · obtain ⟨pre, post, hsplit, hpre⟩ := List.find?_eq_some_iff_append.mp hf |>.2
+        exact ⟨pre, e.2, post, by simpa using hsplit, fun x hx => by simpa using hpre x hx⟩
+  · cases hf : (d.edgesOf q).find? (fun e => S.generatable e.1) with
+    | none =>
+      simp only [Option.map_none, true_iff]
+      intro e he
+      simpa using List.find?_eq_none.mp hf e he
+    | some e =>
+      simp only [Option.map_some, reduceCtorEq, false_iff]
+      intro hall
+      have h1 := hall e (List.mem_of_find?_eq_some hf)
+      have h2 : S.generatable e.1 = true := by simpa using List.find?_some hf
+      rw [h1] at h2
+      exact Bool.false_ne_true h2
+
 end PM.C15
